@@ -99,6 +99,7 @@ type Snap struct {
 	ReportRow    int       `json:"report_row"` // last cursor report sent by the terminal (1-based), 0 if none
 	ReportCol    int       `json:"report_col"`
 	AnchorAbsRow int       `json:"anchor_abs_row"` // absolute (scroll-independent) row of the last report
+	ReportWrap   bool      `json:"report_wrap"`    // the terminal was in pending-wrap state when it answered
 	Queries      int       `json:"queries"`
 	OutOff       int       `json:"out_off"` // offset in raw output at this wait
 	Dirty        bool      `json:"dirty"`   // a disturbance redisplay may be incomplete
@@ -201,6 +202,7 @@ type Session struct {
 	siteCount            map[string]int
 	reportRow, reportCol int
 	reportAbs            int
+	reportWrap           bool
 
 	rng     *rand.Rand
 	tapePos int
@@ -567,6 +569,7 @@ func (s *Session) onQuery(row, col int) {
 	s.queryCount++
 	s.reportRow, s.reportCol = row, col
 	s.reportAbs = row - 1 + s.Term.Scrolled
+	s.reportWrap = s.Term.Wrap
 	rep := fmt.Sprintf("\x1b[%d;%dR", row, col)
 	// fault: report withheld / cut
 	for i, f := range s.Spec.Plan.Faults {
@@ -956,7 +959,7 @@ func (s *Session) cuts(max int) []int {
 	if n > max {
 		n = max
 	}
-	vi := s.Spec.Env.Mode == "vi"
+	vi := s.Spec.Env.Mode == "vi" || s.Spec.Plan.ViRule
 	for i := 1; i <= n; i++ {
 		last := s.fifo[i-1]
 		if i < len(s.fifo) {
@@ -1081,7 +1084,7 @@ func (s *Session) typeSome() {
 		k := len(rem)
 		if len(rem) > 1 && s.choose(3) == 1 {
 			k = 1 + s.choose(len(rem)-1)
-			if s.Spec.Env.Mode == "vi" && rem[k-1] == 0x1b && k < len(rem) {
+			if (s.Spec.Env.Mode == "vi" || s.Spec.Plan.ViRule) && rem[k-1] == 0x1b && k < len(rem) {
 				k++
 			}
 		}
@@ -1236,6 +1239,7 @@ func (s *Session) snapshot(kind string) Snap {
 	}()
 	sn.ReportRow, sn.ReportCol = s.reportRow, s.reportCol
 	sn.AnchorAbsRow = s.reportAbs
+	sn.ReportWrap = s.reportWrap
 	sn.Queries = s.queryCount
 	sn.OutOff = int(s.outOff)
 	sn.Dirty = s.dirty
